@@ -53,7 +53,7 @@ pub fn cfg_for(profile: &str, thorough: bool) -> GenCfg {
         "C09" => GenCfg { profile: "C09", resize: true, close: true, ..base },
         "C10" => GenCfg { profile: "C10", no_runtime_calls: true, resize: true, ..base },
         "C11" => GenCfg { profile: "C11", close: true, resize: true, ..base },
-        "C13" => GenCfg { profile: "C13", resize: true, ..base },
+        "C13" => GenCfg { profile: "C13", resize: true, close: true, ..base },
         _ => panic!("unknown managed profile {profile}"),
     }
 }
